@@ -1,7 +1,7 @@
 import QR.Model.Svg
 import QR.Spec.Svg
 import QR.Proofs.Svg
-import QR.Proofs.SourceTie
+import QR.Proofs.SourceTieC13
 import QR.Proofs.Pinned
 /-
 C13 - SVG factories: each factory draws exactly one correctly placed shape per dark module and none for light modules,
